@@ -91,6 +91,9 @@ type Engine struct {
 	// Par: the engine is single-threaded (GOMAXPROCS=1 or the cooperative scheduler) and keeps its files under
 	// VERIF_SCRATCH_DIR, so its repetitions (different seeds) run concurrently, one per core.
 	Par bool
+	// WidenSkip: package directories that the "whole package" instrumentation fallback leaves as listed (their other
+	// files contain accesses the engine's trace oracle would mistake for the ones it follows).
+	WidenSkip []string
 }
 
 type Spec struct {
@@ -244,7 +247,85 @@ type engineResult struct {
 	raceLogs int
 }
 
+// runEngine runs the engine; when its observability calibration found no shimmed access (the code was moved out of
+// the instrumented files by a refactor) it is run once more with every non-test file of the same package directories
+// instrumented, so that a move between files of one package does not leave the check inconclusive.
 func (c *ctx) runEngine(e *Engine, onlyCase int) *engineResult {
+	if len(e.Instr) > 0 && os.Getenv("VERIF_WIDEN") != "" {
+		w := *e
+		w.Instr = widen(e.Instr, e.WidenSkip)
+		return c.runEngineOnce(&w, onlyCase)
+	}
+	res := c.runEngineOnce(e, onlyCase)
+	if len(e.Instr) == 0 || len(res.partials) == 0 {
+		return res
+	}
+	blind := false
+	for _, s := range res.inconcl {
+		if strings.Contains(s, "observability:") {
+			blind = true
+		}
+	}
+	for _, p := range res.partials {
+		if len(p.Violations) > 0 {
+			blind = false
+		}
+	}
+	if !blind {
+		return res
+	}
+	w := *e
+	w.Instr = widen(e.Instr, e.WidenSkip)
+	if len(w.Instr) == len(e.Instr) {
+		return res
+	}
+	fmt.Printf("engine %s: no shimmed access in %v; retrying with the whole package directories instrumented\n", e.Name, e.Instr)
+	return c.runEngineOnce(&w, onlyCase)
+}
+
+// widen returns the instrumentation list extended by every non-test .go file of the directories it names.
+func widen(instr []string, skip []string) []string {
+	out := append([]string(nil), instr...)
+	have := map[string]bool{}
+	dirs := []string{}
+	seenDir := map[string]bool{}
+	for _, f := range instr {
+		f = strings.TrimSuffix(f, "+sync")
+		have[f] = true
+		if d := filepath.Dir(f); !seenDir[d] && !contains(skip, d) {
+			seenDir[d] = true
+			dirs = append(dirs, d)
+		}
+	}
+	for _, d := range dirs {
+		ents, err := os.ReadDir(filepath.Join(repoDir, d))
+		if err != nil {
+			continue
+		}
+		for _, en := range ents {
+			n := en.Name()
+			if en.IsDir() || !strings.HasSuffix(n, ".go") || strings.HasSuffix(n, "_test.go") {
+				continue
+			}
+			if f := filepath.Join(d, n); !have[f] {
+				have[f] = true
+				out = append(out, f)
+			}
+		}
+	}
+	return out
+}
+
+func contains(l []string, s string) bool {
+	for _, x := range l {
+		if x == s {
+			return true
+		}
+	}
+	return false
+}
+
+func (c *ctx) runEngineOnce(e *Engine, onlyCase int) *engineResult {
 	res := &engineResult{}
 	var bin string
 	if e.Custom == nil {
